@@ -272,6 +272,24 @@ func genC13() {
 		}
 		g.def("build_image_steps", "list string", "["+c13JoinSemi(steps)+"]", "calls of buildImage in source order at "+g.pos(fd))
 	}
+	// tarfs: does truncating a file detach it from the tar entry that backs it?
+	// (finding C13-F4 / fixes/C13-F4.patch: newMemFile's O_TRUNC branch then sets the entry's header.Size to 0)
+	const tfs = "pkg/tarfs/fs.go"
+	if fd := findFunc(tfs, "", "newMemFile"); fd == nil {
+		fail("%s: newMemFile not found", tfs)
+	} else {
+		detaches := false
+		ast.Inspect(fd, func(n ast.Node) bool {
+			as, ok := n.(*ast.AssignStmt)
+			if ok && len(as.Lhs) == 1 && len(exprText(as.Lhs[0])) >= 11 && exprText(as.Lhs[0])[len(exprText(as.Lhs[0]))-11:] == "header.Size" {
+				if v, ok := intLit(as.Rhs[0]); ok && v == 0 {
+					detaches = true
+				}
+			}
+			return true
+		})
+		g.def("tarfs_trunc_detaches", "bool", fmt.Sprint(detaches), "newMemFile: O_TRUNC zeroes the backing entry's header.Size at "+g.pos(fd))
+	}
 	wc := findFunc(bi, "Context", "WriteEtcApkoConfig")
 	str("apko_config_path", c13CallArg(wc, bi+":WriteEtcApkoConfig", "Create", 0), "file written by WriteEtcApkoConfig")
 	num("apko_config_perm", c13CallArg(wc, bi+":WriteEtcApkoConfig", "Chmod", 1), "mode of etc/apko.json")
